@@ -37,6 +37,7 @@ from liquid2.exceptions import LiquidSyntaxError
 from liquid2.exceptions import LiquidTypeError
 from liquid2.exceptions import UnknownFilterError
 from liquid2.expression import Expression
+from liquid2.limits import MAX_STR_INT
 from liquid2.limits import to_int
 from liquid2.unescape import unescape
 
@@ -643,6 +644,20 @@ class FilteredExpression(Expression):
         return FilteredExpression(left.token, left, filters)
 
 
+def _int_literal(token: Token) -> int:
+    """Return exactly the integer written in _token_, `1e3` style exponent included."""
+    digits, _, exponent = token.value.lower().partition("e")
+    try:
+        zeros = to_int(exponent) if exponent else 0
+        if MAX_STR_INT:
+            # `to_int` limits the number of digits, written out or not.
+            zeros = min(zeros, MAX_STR_INT)
+        return to_int(digits + "0" * zeros)
+    except LiquidError as err:
+        err.token = token
+        raise
+
+
 def parse_primitive(env: Environment, token: TokenT) -> Expression:  # noqa: PLR0911
     """Parse _token_ as a primitive expression."""
     if is_token_type(token, TokenType.TRUE):
@@ -662,7 +677,7 @@ def parse_primitive(env: Environment, token: TokenT) -> Expression:  # noqa: PLR
         return Path(token, [token.value])
 
     if is_token_type(token, TokenType.INT):
-        return IntegerLiteral(token, to_int(float(token.value)))
+        return IntegerLiteral(token, _int_literal(token))
 
     if is_token_type(token, TokenType.FLOAT):
         return FloatLiteral(token, float(token.value))
@@ -1169,7 +1184,7 @@ def parse_boolean_primitive(  # noqa: PLR0912
         else:
             left = Path(token, [token.value])
     elif is_token_type(token, TokenType.INT):
-        left = IntegerLiteral(token, to_int(float(token.value)))
+        left = IntegerLiteral(token, _int_literal(token))
     elif is_token_type(token, TokenType.FLOAT):
         left = FloatLiteral(token, float(token.value))
     elif is_token_type(token, TokenType.DOUBLE_QUOTE_STRING):
